@@ -138,6 +138,19 @@ def _enumerable(it, n=None):
     return None
 
 
+def _some_payload(e):
+    """payload of an Option-valued tree when it is Some (None when it never is)"""
+    e0 = strip(e)
+    if e0[0] == "agg" and e0[1][0] == "adt" and e0[1][1].endswith("option::Option"):
+        return e0[2][0] if e0[1][2] == "Some" and e0[2] else None
+    if e0[0] == "phi":
+        alts = [p for p in (_some_payload(a) for a in e0[1]) if p is not None]
+        if not alts:
+            return None
+        return alts[0] if len(alts) == 1 else ("phi", tuple(alts))
+    return ("ok", e)
+
+
 def _table_item(t):
     """the sub-tree `ok(next(<iterator over an array literal>))` inside t, with the items it stands for (the array's
     elements, or (index, element) pairs under enumerate())"""
@@ -157,9 +170,15 @@ def _table_item(t):
                     b = _enumerable(z[2][1], len(a))
                 if a is not None and b is not None:
                     return x, [("agg", ("tuple",), (p, q)) for p, q in zip(a, b)]
+            flattened = False
             for y in leaves(it):
+                if y[0] == "call" and y[1].rsplit("::", 1)[-1] == "flatten":
+                    flattened = True
                 if y[0] == "agg" and y[1][0] == "array" and y[2]:
                     items = list(y[2])
+                    if flattened:
+                        # [Some(a), None, opt].into_iter().flatten(): the payloads of the elements that are Some
+                        items = [p_ for p_ in (_some_payload(e) for e in items) if p_ is not None]
                     if enumerated:
                         items = [("agg", ("tuple",), (("const", "usize", i), e)) for i, e in enumerate(items)]
                     return x, items
